@@ -12,7 +12,8 @@ THEOREMS = ['C16_partition_overlap', 'C16_weights_nonneg', 'C16_rows_sum_to_one'
             'C16_hybrid_integral_conserved', 'C16_latitude_overlap_is_sin_overlap', 'C16_latitude_rows',
             'C16_latitude_integral_conserved', 'C16_latitude_integral_conserved_R',
             'C16_longitude_rows_partial', 'C16_horizontal_integral_conserved_partial',
-            'C16_nan_semantics_strict', 'C16_nan_semantics_skipna', 'C16_longitude_coarse_refuted',
+            'C16_nan_semantics_strict', 'C16_nan_semantics_skipna', 'C16_periodic_overlap_pointwise_R',
+            'C16_longitude_coarse_refuted',
             'C16_hyps_satisfiable']
 LEVEL = 'proof'
 LEVEL_TEXT = ('machine-checked theorems (Coq) for every ordered field, every number of source/target cells and every '
@@ -22,7 +23,8 @@ LEVEL_TEXT = ('machine-checked theorems (Coq) for every ordered field, every num
               'settings; the Gallina model is executed (extraction) against the implementation on generated grid pairs')
 LEVEL_NOTE = ('longitude: non-negativity, row sums, constants and range are proved for the periodic overlap as coded; the '
               'periodic partition identity (hence conservation of the longitude / tensor-product integral) is NOT proved: '
-              'it enters C16_horizontal_integral_conserved_partial as an explicit hypothesis and is decided by oracle '
+              'it enters C16_horizontal_integral_conserved_partial as an explicit hypothesis (only its pointwise core, '
+              'C16_periodic_overlap_pointwise_R, is proved, over R) and is decided by oracle '
               'exploration on generated grid pairs (>= 4 longitudes) only. sin enters as monotone tables (table obligations '
               'checked per case). Theorems are about the model Model/Regrid.v, tied to the code by differential correspondence.')
 TECHNIQUE = 'interactive proof (Coq) + extracted-model differential testing + property oracles'
@@ -165,7 +167,7 @@ def generate(ctx):
                'offset': [0.0, 0.05, 0.3, math.pi / nls][int(rng.integers(0, 4))]}
         tgt = {'nlon': nlt, 'nlat': nat_, 'spacing': SPACINGS[int(rng.integers(0, 3))],
                'offset': [0.0, 0.05, 0.3, math.pi / nlt][int(rng.integers(0, 4))]}
-        pat = pats[r % len(pats)]
+        pat = pats[(r // 2) % len(pats)]
         ctx.count('2d:pattern=' + pat); ctx.count('2d:' + ('model+oracle' if small else 'oracle-only'))
         ctx.count('2d:%s->%s' % (src['spacing'], tgt['spacing']))
         for skipna in (0, 1):
